@@ -83,6 +83,9 @@ Definition once_with (k:bytes) (v:bytes) (kv:list (bytes * list bytes)) : bool :
 Definition request_ok (k:dcase) (r:bytes * bytes * list (bytes * list bytes)) : option N :=
   let '(tg, ho, kv) := r in
   if negb (beq tg (c_target k)) then Some 124                                   (* path / query not preserved *)
+  else if negb (beq ho (c_host k)
+                || existsb (fun p => beq (canonical_key (fst p)) [72;111;115;116] && beq (first (snd p)) ho) (c_caller k))
+       then Some 117                                                             (* Host: the URL's host (brackets, port and all) or the caller's override *)
   else if negb (once_with k_upgrade s_websocket kv) then Some 125               (* Upgrade: websocket, once *)
   else if negb (once_with k_connection [85;112;103;114;97;100;101] kv) then Some 125
   else if negb (once_with k_version [49;51] kv) then Some 125
